@@ -219,12 +219,14 @@ protected:
     }
 
     void build_queue(awaiter *stop) {
-        assert("Can't build queue if there are items in it" && _queue == nullptr);
         //atomically swap top of _requests with doorman
         //we use acquire order - to see changes on _next
         COCLS_VERIF_POINT(mx_build_pre);
         awaiter *req = _requests.exchange(doorman(), std::memory_order_acquire);
         COCLS_VERIF_POINT(mx_build_post);
+        //_queue can be inspected only after the acquire above - a new owner which
+        //found the mutex unlocked has not synchronized with the previous owner before
+        assert("Can't build queue if there are items in it" && _queue == nullptr);
         //if req is defined and until stop is reached
         while (req  && req != stop) {
             //pick top item, remove it and push it to _queue
